@@ -41,10 +41,12 @@ def rnd_double(rng):
 
 class PROP(PropCheck):
     id = "C15"
-    theorems = []
+    theorems = ["C15_math_table_is_reference", "C15_round_int_integral", "C15_round_int_specials", "C15_show_specials",
+                "C15_search_in_interval", "C15_layout_integer", "C15_random_in_range", "C15_random_reaches_both_ends",
+                "C15_roundtrip_examples"]
     coq_imports = ["Obs"]
     model_targets = ["theories/Obs.vo"]
-    prop_targets = []
+    prop_targets = ["theories/Props/C15.vo"]
     harness_mode = "run"
     trusted_base = [
         "Coq 8.16.1 kernel and bytecode VM; primitive floats",
